@@ -29,6 +29,13 @@ class Unknown:
         return "?%s" % self.tag
 
 
+class Obj(Unknown):
+    """An unknown value that is known not to be None (bytes received, an object just built)."""
+
+    def __repr__(self):
+        return "?obj:%s" % self.tag
+
+
 class Const:
     def __init__(self, v):
         self.v = v
@@ -863,7 +870,9 @@ def compare(op, l, r):
             else:
                 same = l.v == r.v
             return Const(same if isinstance(op, ast.Is) else not same)
-        if isinstance(r, Const) and r.v is None and isinstance(l, (Tup, Ref)):
+        if isinstance(r, Const) and r.v is None and isinstance(l, (Tup, Ref, Obj)):
+            return Const(isinstance(op, ast.IsNot))
+        if isinstance(l, Const) and l.v is None and isinstance(r, (Tup, Ref, Obj)):
             return Const(isinstance(op, ast.IsNot))
         return Unknown("is")
     if isinstance(l, Const) and isinstance(r, Const):
